@@ -162,6 +162,7 @@ mut_op = st.one_of(
     st.tuples(st.just("field"), st.integers(0, 255), st.sampled_from([0, 1, 2, 3, 5, 15, 16, 17, 0x7F, 0x80, 0xFE, 0xFF, 0xFFFF, 0x10000, 0xFFFFFFFF])),
     st.tuples(st.just("field+"), st.integers(0, 255), st.sampled_from([-1, 1, -2, 2, 16, -16])),
     st.tuples(st.just("nonascii"), st.integers(0, 255), st.sampled_from([0x80, 0xC3, 0xFF])),
+    st.tuples(st.just("utf8"), st.integers(0, 255), st.sampled_from(["c3a9", "e282ac", "c3a9c3a9"])),
 )
 
 
@@ -189,6 +190,14 @@ def apply_mutations(data, fields, script, base=0):
             pos = op[1] % len(b)
             seg = b[pos : pos + op[2]]
             b[pos:pos] = seg
+        elif k == "utf8":
+            # a valid multi-byte UTF-8 sequence written over the text of a configuration string
+            sel = [f for f in fields if f[2] == "cfgchar"]
+            if sel:
+                off = sel[op[1] % len(sel)][0] + base
+                seq = bytes.fromhex(op[2])
+                if off + len(seq) <= len(b):
+                    b[off : off + len(seq)] = seq
         elif k in ("field", "field+", "nonascii"):
             sel = [f for f in fields if (k != "nonascii" or f[2] == "cfgchar")] or fields
             if not sel:
